@@ -40,6 +40,9 @@ def run_mutant(pid, m, repo="/repo", keep=False):
         env["VERIF_EVIDENCE_DIR"] = evd
         env["VERIF_NO_SELFTEST"] = "1"
         q = subprocess.run([os.path.join(VERIF, "verif"), "check", pid, "--tier", "quick"], env=env, stdout=subprocess.PIPE, stderr=subprocess.STDOUT, text=True)
+        if not os.path.exists(os.path.join(evd, pid + ".json")):
+            # the check died before writing evidence (e.g. a cache entry vanished under it): once more
+            q = subprocess.run([os.path.join(VERIF, "verif"), "check", pid, "--tier", "quick"], env=env, stdout=subprocess.PIPE, stderr=subprocess.STDOUT, text=True)
         keys = []
         try:
             with open(os.path.join(evd, pid + ".json")) as fh:
